@@ -34,36 +34,552 @@ Proof.
   intros K. specialize (Hne K). destruct body; [congruence|]. cbn [length]. lia.
 Qed.
 
-(* ================================================================ getNextNonCommentToken *)
-
-Lemma next_loop_ok fuel : forall m s, (unread s < fuel)%nat ->
-  exists t s', next_loop fuel m s = Ok (t, s') /\ (unread s' <= unread s)%nat /\
-    (tk_kind t <> TkEndOfFile -> (unread s' < unread s)%nat) /\ tk_kind t <> TkComment.
-Proof.
-  induction fuel as [|f IH]; intros m s Hf; [lia|].
-  cbn [next_loop]. destruct (lex_step m s) as [t [s' [E [Hle Hlt]]]]. rewrite E.
-  destruct (kind_eqb (tk_kind t) TkComment) eqn:K.
-  - apply kind_eqb_eq in K.
-    assert (Hs : (unread s' < unread s)%nat) by (apply Hlt; rewrite K; discriminate).
-    destruct (IH m s') as [t2 [s2 [E2 [Hle2 [Hlt2 Hc]]]]]; [lia|].
-    exists t2, s2. split; [exact E2|]. split; [lia|]. split; [|exact Hc]. intros H. specialize (Hlt2 H). lia.
-  - apply kind_eqb_neq in K. exists t, s'. split; [reflexivity|]. split; [exact Hle|]. split; assumption.
-Qed.
-
-(* the parser state after a step: the lexer did not un-read, and it consumed something unless the new current
-   token is EndOfFile *)
+(* the parser state after at least one lex call: the lexer did not un-read, and it consumed something unless the
+   new current token is EndOfFile *)
 Definition steps (s : lstate) (p' : pstate) : Prop :=
   (unread (p_lex p') <= unread s)%nat /\ (cur_kind p' <> TkEndOfFile -> (unread (p_lex p') < unread s)%nat).
 
-Lemma get_next_ok m s : exists p', get_next m s = Ok p' /\ steps s p' /\ p_mode p' = m /\ cur_kind p' <> TkComment.
+Lemma steps_trans s p1 p2 : steps s p1 -> steps (p_lex p1) p2 -> steps s p2.
+Proof. unfold steps. intros [H1 H2] [H3 H4]. split; [lia|]. intros K. specialize (H4 K). lia. Qed.
+
+Lemma steps_set_mode s m p : steps s (set_mode m p) <-> steps s p.
+Proof. unfold steps, set_mode, cur_kind. cbn [p_lex p_tok]. tauto. Qed.
+
+(* zero or more lex calls *)
+Definition wsteps (p p' : pstate) : Prop := p' = p \/ steps (p_lex p) p'.
+
+Lemma steps_wsteps s p1 p2 : steps s p1 -> wsteps p1 p2 -> steps s p2.
+Proof. intros H [->|H2]; [exact H|]. eapply steps_trans; eassumption. Qed.
+
+Lemma wsteps_le p p' : wsteps p p' -> (unread (p_lex p') <= unread (p_lex p))%nat.
+Proof. intros [->|[H _]]; [lia|exact H]. Qed.
+
+Lemma at_kind_true k p : at_kind k p = true <-> cur_kind p = k.
+Proof. apply kind_eqb_eq. Qed.
+Lemma at_kind_false k p : at_kind k p = false <-> cur_kind p <> k.
+Proof. apply kind_eqb_neq. Qed.
+
+(* ================================================================ invariants carried through the parser *)
+
+(* Every lemma of this section is stated for an arbitrary invariant A of the lexer state and an arbitrary property P
+   of tokens such that a lex call from an A-state gives an A-state and a P-token (and P survives the derivation of
+   the empty string token).  A := True, P := True gives totality; A := at_data data, P := "inside data" gives the
+   bounds. *)
+Section Inv.
+  Variable A : lstate -> Prop.
+  Variable P : token -> Prop.
+  Hypothesis HA : forall m s t s', A s -> lex m s = Ok (t, s') -> A s' /\ P t.
+  Hypothesis HE : forall t, P t -> P (empty_string_of t).
+
+  Definition pinv (p : pstate) : Prop := A (p_lex p) /\ P (p_tok p).
+
+  Lemma pinv_set_mode m p : pinv (set_mode m p) <-> pinv p.
+  Proof. unfold pinv, set_mode. cbn [p_lex p_tok]. tauto. Qed.
+
+  (* ---------------- getNextNonCommentToken *)
+
+  Lemma next_loop_ok fuel : forall m s, (unread s < fuel)%nat -> A s ->
+    exists t s', next_loop fuel m s = Ok (t, s') /\ (unread s' <= unread s)%nat /\
+      (tk_kind t <> TkEndOfFile -> (unread s' < unread s)%nat) /\ tk_kind t <> TkComment /\ A s' /\ P t.
+  Proof.
+    induction fuel as [|f IH]; intros m s Hf Ha; [lia|].
+    cbn [next_loop]. destruct (lex_step m s) as [t [s' [E [Hle Hlt]]]]. rewrite E.
+    destruct (HA m s t s' Ha E) as [Ha' Hp].
+    destruct (kind_eqb (tk_kind t) TkComment) eqn:K.
+    - apply kind_eqb_eq in K.
+      assert (Hs : (unread s' < unread s)%nat) by (apply Hlt; rewrite K; discriminate).
+      destruct (IH m s') as [t2 [s2 [E2 [Hle2 [Hlt2 [Hc [Ha2 Hp2]]]]]]]; [lia|exact Ha'|].
+      exists t2, s2. split; [exact E2|]. split; [lia|]. split; [|auto]. intros H. specialize (Hlt2 H). lia.
+    - apply kind_eqb_neq in K. exists t, s'. split; [reflexivity|]. auto.
+  Qed.
+
+  Lemma get_next_ok m s : A s ->
+    exists p', get_next m s = Ok p' /\ steps s p' /\ p_mode p' = m /\ cur_kind p' <> TkComment /\ pinv p'.
+  Proof.
+    intros Ha. unfold get_next.
+    destruct (next_loop_ok (S (length (l_rest s))) m s) as [t [s' [E [Hle [Hlt [Hc [Ha' Hp]]]]]]]; [unfold unread; lia|exact Ha|].
+    rewrite E. cbn [bind fst snd]. eexists. split; [reflexivity|]. unfold steps, cur_kind, pinv. cbn [p_lex p_tok p_mode].
+    auto.
+  Qed.
+
+  Lemma next_ok p : pinv p ->
+    exists p', next p = Ok p' /\ steps (p_lex p) p' /\ p_mode p' = p_mode p /\ cur_kind p' <> TkComment /\ pinv p'.
+  Proof. intros [Ha _]. apply get_next_ok. exact Ha. Qed.
+
+  (* ---------------- skipPastEOL *)
+
+  Definition is_eol (k : kind) : Prop := k = TkNewline \/ k = TkEndOfFile.
+
+  Lemma eol_test k : kind_eqb k TkNewline || kind_eqb k TkEndOfFile = true <-> is_eol k.
+  Proof. unfold is_eol. rewrite orb_true_iff, !kind_eqb_eq. tauto. Qed.
+
+  Lemma skip_loop_ok fuel : forall m t s, (unread s + 1 < fuel)%nat -> A s -> P t ->
+    exists t' s', skip_loop fuel m t s = Ok (t', s') /\ (unread s' <= unread s)%nat /\ A s' /\ P t' /\ is_eol (tk_kind t').
+  Proof.
+    induction fuel as [|f IH]; intros m t s Hf Ha Hp; [lia|].
+    cbn [skip_loop]. destruct (kind_eqb (tk_kind t) TkNewline || kind_eqb (tk_kind t) TkEndOfFile) eqn:K.
+    - apply eol_test in K. exists t, s. split; [reflexivity|]. auto.
+    - destruct (lex_step m s) as [t1 [s1 [E [Hle Hlt]]]]. rewrite E.
+      destruct (HA m s t1 s1 Ha E) as [Ha1 Hp1].
+      destruct (kind_eqb (tk_kind t1) TkEndOfFile) eqn:K1.
+      + apply kind_eqb_eq in K1. destruct f as [|f']; [lia|]. cbn [skip_loop].
+        rewrite K1. replace (kind_eqb TkEndOfFile TkNewline || kind_eqb TkEndOfFile TkEndOfFile) with true by reflexivity.
+        exists t1, s1. split; [reflexivity|]. split; [exact Hle|]. split; [exact Ha1|]. split; [exact Hp1|]. right. exact K1.
+      + apply kind_eqb_neq in K1. specialize (Hlt K1).
+        destruct (IH m t1 s1) as [t' [s' [E' [Hle' R]]]]; [lia|exact Ha1|exact Hp1|].
+        exists t', s'. split; [exact E'|]. split; [lia|exact R].
+  Qed.
+
+  Lemma skip_past_eol_ok p : pinv p ->
+    exists p', skip_past_eol p = Ok p' /\ steps (p_lex p) p' /\ p_mode p' = p_mode p /\ cur_kind p' <> TkComment /\ pinv p'.
+  Proof.
+    intros [Ha Hp]. unfold skip_past_eol.
+    destruct (skip_loop_ok (S (S (length (l_rest (p_lex p))))) (p_mode p) (p_tok p) (p_lex p))
+      as [t' [s' [E [Hle [Ha' [Hp' _]]]]]]; [unfold unread; lia|exact Ha|exact Hp|].
+    rewrite E. cbn [bind fst snd].
+    destruct (next_ok (mkP t' s' (p_mode p))) as [p' [E' [Hs [Hm [Hc Hi]]]]]; [split; assumption|].
+    exists p'. split; [exact E'|]. cbn [p_lex p_mode] in Hs, Hm. split; [|auto].
+    destruct Hs as [H1 H2]. split; [lia|]. intros K. specialize (H2 K). lia.
+  Qed.
+
+  Lemma fail_skip_ok {X : Type} (mk : N -> token -> X) code p : pinv p ->
+    exists p', fail_skip mk code p = Ok (mk code (p_tok p), p') /\ steps (p_lex p) p' /\ p_mode p' = p_mode p /\
+      cur_kind p' <> TkComment /\ pinv p'.
+  Proof.
+    intros Hi. unfold fail_skip. destruct (skip_past_eol_ok p Hi) as [p' [E R]]. rewrite E. cbn [bind].
+    exists p'. split; [reflexivity|exact R].
+  Qed.
+
+  (* ---------------- the measure of the loops: unread bytes, plus one while the current token is not EndOfFile *)
+
+  Definition mu (p : pstate) : nat :=
+    (unread (p_lex p) + if kind_eqb (cur_kind p) TkEndOfFile then 0 else 1)%nat.
+
+  Lemma mu_bound p : (mu p <= unread (p_lex p) + 1)%nat.
+  Proof. unfold mu. destruct (kind_eqb _ _); lia. Qed.
+
+  Lemma mu_set_mode m p : mu (set_mode m p) = mu p.
+  Proof. reflexivity. Qed.
+
+  Lemma steps_mu p p' : cur_kind p <> TkEndOfFile -> steps (p_lex p) p' -> (mu p' < mu p)%nat.
+  Proof.
+    intros K [H1 H2]. unfold mu. apply kind_eqb_neq in K. rewrite K.
+    destruct (kind_eqb (cur_kind p') TkEndOfFile) eqn:K'; [lia|]. apply kind_eqb_neq in K'. specialize (H2 K'). lia.
+  Qed.
+
+  Lemma wsteps_mu p p' : wsteps p p' -> (mu p' <= mu p)%nat.
+  Proof.
+    intros [->|[H1 H2]]; [lia|]. unfold mu.
+    destruct (kind_eqb (cur_kind p') TkEndOfFile) eqn:K'.
+    - destruct (kind_eqb (cur_kind p) TkEndOfFile); lia.
+    - apply kind_eqb_neq in K'. specialize (H2 K'). destruct (kind_eqb (cur_kind p) TkEndOfFile); lia.
+  Qed.
+
+  (* ---------------- string lists *)
+
+  Lemma strings_loop_ok fuel : forall p, (mu p < fuel)%nat -> pinv p ->
+    exists l p', strings_loop fuel p = Ok (l, p') /\ p_mode p' = p_mode p /\ pinv p' /\ Forall P l /\
+      cur_kind p' <> TkString /\
+      ((cur_kind p = TkString /\ l <> [] /\ steps (p_lex p) p') \/ (cur_kind p <> TkString /\ l = [] /\ p' = p)).
+  Proof.
+    induction fuel as [|f IH]; intros p Hf Hi; [lia|].
+    cbn [strings_loop]. destruct (at_kind TkString p) eqn:K.
+    - apply at_kind_true in K.
+      destruct (next_ok p Hi) as [p1 [E1 [Hs1 [Hm1 [_ Hi1]]]]]. rewrite E1. cbn [bind].
+      assert (Hmu : (mu p1 < mu p)%nat) by (apply steps_mu; [rewrite K; discriminate|exact Hs1]).
+      destruct (IH p1) as [l [p' [E [Hm [Hi' [Hl [Hk Hc]]]]]]]; [lia|exact Hi1|].
+      rewrite E. cbn [bind fst snd]. exists (p_tok p :: l), p'. split; [reflexivity|].
+      split; [congruence|]. split; [exact Hi'|]. split; [constructor; [apply Hi|exact Hl]|]. split; [exact Hk|].
+      left. split; [exact K|]. split; [discriminate|].
+      destruct Hc as [[_ [_ Hs]]|[_ [_ ->]]]; [eapply steps_trans; eassumption|exact Hs1].
+    - apply at_kind_false in K. exists [], p. split; [reflexivity|]. split; [reflexivity|]. split; [exact Hi|].
+      split; [constructor|]. split; [exact K|]. right. auto.
+  Qed.
+
+  Lemma strings_ok p : pinv p ->
+    exists l p', strings p = Ok (l, p') /\ p_mode p' = p_mode p /\ pinv p' /\ Forall P l /\ cur_kind p' <> TkString /\
+      ((cur_kind p = TkString /\ l <> [] /\ steps (p_lex p) p') \/ (cur_kind p <> TkString /\ l = [] /\ p' = p)).
+  Proof.
+    intros Hi. apply strings_loop_ok; [|exact Hi]. pose proof (mu_bound p). unfold unread in *. lia.
+  Qed.
+
+  Lemma strings_wsteps p (l : list token) p' :
+    ((cur_kind p = TkString /\ l <> [] /\ steps (p_lex p) p') \/ (cur_kind p <> TkString /\ l = [] /\ p' = p)) -> wsteps p p'.
+  Proof. intros [[_ [_ H]]|[_ [_ ->]]]; [right; exact H|left; reflexivity]. Qed.
+
+  (* ---------------- bindings *)
+
+  Definition bres_P (r : bres) : Prop :=
+    match r with BROk n v => P n /\ P v | BRErr _ a => P a end.
+
+  Lemma parse_binding_internal_ok p : pinv p ->
+    exists r p', parse_binding_internal p = Ok (r, p') /\ steps (p_lex p) p' /\ p_mode p' = MNone /\ pinv p' /\ bres_P r.
+  Proof.
+    intros Hi. unfold parse_binding_internal.
+    destruct (at_kind TkIdentifier p) eqn:K0; cbn [negb].
+    2:{ destruct (fail_skip_ok BRErr e_expected_var_name (set_mode MNone p)) as [p' [E [Hs [Hm [_ Hi']]]]];
+          [apply pinv_set_mode; exact Hi|].
+        rewrite E. eexists _, p'. split; [reflexivity|]. split; [exact Hs|]. split; [exact Hm|]. split; [exact Hi'|].
+        apply Hi. }
+    destruct (next_ok p Hi) as [p1 [E1 [Hs1 [Hm1 [_ Hi1]]]]]. rewrite E1. cbn [bind].
+    destruct (at_kind TkEquals p1) eqn:K1; cbn [negb].
+    2:{ destruct (fail_skip_ok BRErr e_expected_equals (set_mode MNone p1)) as [p' [E [Hs [Hm [_ Hi']]]]];
+          [apply pinv_set_mode; exact Hi1|].
+        rewrite E. eexists _, p'. split; [reflexivity|]. split; [eapply steps_trans; eassumption|]. split; [exact Hm|].
+        split; [exact Hi'|]. apply Hi1. }
+    destruct (next_ok (set_mode MVariableString p1)) as [p2 [E2 [Hs2 [Hm2 [_ Hi2]]]]]; [apply pinv_set_mode; exact Hi1|].
+    rewrite E2. cbn [bind]. cbn [set_mode p_lex] in Hs2.
+    assert (Hs02 : steps (p_lex p) p2) by (eapply steps_trans; eassumption).
+    assert (Hi3 : pinv (set_mode MNone p2)) by (apply pinv_set_mode; exact Hi2).
+    destruct (at_kind TkNewline (set_mode MNone p2)) eqn:K3.
+    { destruct (next_ok _ Hi3) as [p4 [E4 [Hs4 [Hm4 [_ Hi4]]]]]. rewrite E4. cbn [bind].
+      eexists _, p4. split; [reflexivity|]. split; [eapply steps_trans; eassumption|]. split; [exact Hm4|].
+      split; [exact Hi4|]. split; [apply Hi|]. apply HE. apply Hi2. }
+    destruct (at_kind TkString (set_mode MNone p2)) eqn:K4; cbn [negb].
+    2:{ destruct (fail_skip_ok BRErr e_expected_var_value _ Hi3) as [p' [E [Hs [Hm [_ Hi']]]]].
+        rewrite E. eexists _, p'. split; [reflexivity|]. split; [eapply steps_trans; eassumption|]. split; [exact Hm|].
+        split; [exact Hi'|]. apply Hi2. }
+    destruct (next_ok _ Hi3) as [p4 [E4 [Hs4 [Hm4 [_ Hi4]]]]]. rewrite E4. cbn [bind].
+    assert (Hs04 : steps (p_lex p) p4) by (eapply steps_trans; eassumption).
+    destruct (at_kind TkNewline p4) eqn:K5.
+    - destruct (next_ok _ Hi4) as [p5 [E5 [Hs5 [Hm5 [_ Hi5]]]]]. rewrite E5. cbn [bind].
+      eexists _, p5. split; [reflexivity|]. split; [eapply steps_trans; eassumption|]. split; [rewrite Hm5, Hm4; reflexivity|].
+      split; [exact Hi5|]. split; [apply Hi|apply Hi2].
+    - destruct (fail_skip_ok BRErr e_expected_newline _ Hi4) as [p' [E [Hs [Hm [_ Hi']]]]].
+      rewrite E. eexists _, p'. split; [reflexivity|]. split; [eapply steps_trans; eassumption|]. split; [rewrite Hm, Hm4; reflexivity|].
+      split; [exact Hi'|]. apply Hi4.
+  Qed.
+
+  (* every token of an action satisfies P *)
+  Definition tbitem_P (b : tbitem) : Prop :=
+    match b with TBBind n v => P n /\ P v | TBPErr _ a => P a end.
+  Definition tdecl_P (d : tdecl) : Prop :=
+    match d with
+    | TDBinding n v => P n /\ P v
+    | TDDefault ps => Forall P ps
+    | TDInclude _ p => P p
+    | TDBuild outs r ex im oo bs => Forall P outs /\ P r /\ Forall P ex /\ Forall P im /\ Forall P oo /\ Forall tbitem_P bs
+    | TDPool n bs => P n /\ Forall tbitem_P bs
+    | TDRule n bs => P n /\ Forall tbitem_P bs
+    | TDPErr _ a => P a
+    end.
+
+  Lemma tdecl_of_bres_P r : bres_P r -> tdecl_P (tdecl_of_bres r).
+  Proof. destruct r; exact (fun H => H). Qed.
+  Lemma tbitem_of_bres_P r : bres_P r -> tbitem_P (tbitem_of_bres r).
+  Proof. destruct r; exact (fun H => H). Qed.
+
+  (* the common shape of the result of a declaration parser *)
+  Definition decl_post (p : pstate) (r : result (tdecl * pstate)) : Prop :=
+    exists d p', r = Ok (d, p') /\ steps (p_lex p) p' /\ p_mode p' = MNone /\ pinv p' /\ tdecl_P d.
+
+  Lemma parse_binding_decl_ok p : pinv p -> decl_post p (parse_binding_decl p).
+  Proof.
+    intros Hi. unfold parse_binding_decl. destruct (parse_binding_internal_ok p Hi) as [r [p' [E [Hs [Hm [Hi' Hr]]]]]].
+    rewrite E. cbn [bind fst snd]. exists (tdecl_of_bres r), p'. split; [reflexivity|]. split; [exact Hs|].
+    split; [exact Hm|]. split; [exact Hi'|]. apply tdecl_of_bres_P. exact Hr.
+  Qed.
+
+  (* ---------------- default *)
+
+  Lemma parse_default_decl_ok p : pinv p -> decl_post p (parse_default_decl p).
+  Proof.
+    intros Hi. unfold parse_default_decl.
+    destruct (next_ok (set_mode MPathString p)) as [p1 [E1 [Hs1 [Hm1 [_ Hi1]]]]]; [apply pinv_set_mode; exact Hi|].
+    rewrite E1. cbn [bind]. cbn [set_mode p_lex] in Hs1.
+    destruct (strings_ok p1 Hi1) as [l [pr [Er [Hmr [Hir [Hl [_ Hc]]]]]]]. rewrite Er. cbn [bind fst snd].
+    assert (Hs2 : steps (p_lex p) (set_mode MNone pr)).
+    { apply steps_set_mode. eapply steps_wsteps; [exact Hs1|]. eapply strings_wsteps. exact Hc. }
+    assert (Hi2 : pinv (set_mode MNone pr)) by (apply pinv_set_mode; exact Hir).
+    destruct l as [|t0 l'].
+    - destruct (fail_skip_ok TDPErr e_expected_target _ Hi2) as [p' [E [Hs [Hm [_ Hi']]]]]. rewrite E.
+      eexists _, p'. split; [reflexivity|]. split; [eapply steps_trans; eassumption|]. split; [exact Hm|].
+      split; [exact Hi'|]. apply Hir.
+    - destruct (at_kind TkNewline (set_mode MNone pr)) eqn:K.
+      + destruct (next_ok _ Hi2) as [p3 [E3 [Hs3 [Hm3 [_ Hi3]]]]]. rewrite E3. cbn [bind].
+        eexists _, p3. split; [reflexivity|]. split; [eapply steps_trans; eassumption|]. split; [exact Hm3|].
+        split; [exact Hi3|]. exact Hl.
+      + destruct (fail_skip_ok TDPErr e_expected_newline _ Hi2) as [p' [E [Hs [Hm [_ Hi']]]]]. rewrite E.
+        eexists _, p'. split; [reflexivity|]. split; [eapply steps_trans; eassumption|]. split; [exact Hm|].
+        split; [exact Hi'|]. apply Hir.
+  Qed.
+
+  (* ---------------- include / subninja *)
+
+  Lemma parse_include_decl_ok p : pinv p -> decl_post p (parse_include_decl p).
+  Proof.
+    intros Hi. unfold parse_include_decl.
+    destruct (next_ok (set_mode MPathString p)) as [p1 [E1 [Hs1 [Hm1 [_ Hi1]]]]]; [apply pinv_set_mode; exact Hi|].
+    rewrite E1. cbn [bind]. cbn [set_mode p_lex] in Hs1.
+    assert (Hs2 : steps (p_lex p) (set_mode MNone p1)) by (apply steps_set_mode; exact Hs1).
+    assert (Hi2 : pinv (set_mode MNone p1)) by (apply pinv_set_mode; exact Hi1).
+    destruct (at_kind TkString (set_mode MNone p1)) eqn:K; cbn [negb].
+    2:{ destruct (fail_skip_ok TDPErr e_expected_path _ Hi2) as [p' [E [Hs [Hm [_ Hi']]]]]. rewrite E.
+        eexists _, p'. split; [reflexivity|]. split; [eapply steps_trans; eassumption|]. split; [exact Hm|].
+        split; [exact Hi'|]. apply Hi1. }
+    destruct (next_ok _ Hi2) as [p3 [E3 [Hs3 [Hm3 [_ Hi3]]]]]. rewrite E3. cbn [bind].
+    assert (Hs03 : steps (p_lex p) p3) by (eapply steps_trans; eassumption).
+    destruct (at_kind TkNewline p3) eqn:K3.
+    - destruct (next_ok _ Hi3) as [p4 [E4 [Hs4 [Hm4 [_ Hi4]]]]]. rewrite E4. cbn [bind].
+      eexists _, p4. split; [reflexivity|]. split; [eapply steps_trans; eassumption|]. split; [rewrite Hm4, Hm3; reflexivity|].
+      split; [exact Hi4|]. apply Hi1.
+    - destruct (fail_skip_ok TDPErr e_expected_newline _ Hi3) as [p' [E [Hs [Hm [_ Hi']]]]]. rewrite E.
+      eexists _, p'. split; [reflexivity|]. split; [eapply steps_trans; eassumption|]. split; [rewrite Hm, Hm3; reflexivity|].
+      split; [exact Hi'|]. apply Hi3.
+  Qed.
+
+  (* ---------------- specifiers *)
+
+  Definition spec_P (r : spec_res) : Prop :=
+    match r with
+    | SBuild rule outs ex im oo => P rule /\ Forall P outs /\ Forall P ex /\ Forall P im /\ Forall P oo
+    | SPool n => P n
+    | SRule n => P n
+    | SErr _ a => P a
+    end.
+
+  Definition spec_post (p : pstate) (r : result (spec_res * pstate)) : Prop :=
+    exists sr p', r = Ok (sr, p') /\ steps (p_lex p) p' /\ p_mode p' = MNone /\ pinv p' /\ spec_P sr.
+
+  Lemma opt_strings_ok k p : pinv p ->
+    exists l p', opt_strings k p = Ok (l, p') /\ p_mode p' = p_mode p /\ pinv p' /\ Forall P l /\ wsteps p p'.
+  Proof.
+    intros Hi. unfold opt_strings. destruct (at_kind k p) eqn:K.
+    - destruct (next_ok p Hi) as [p1 [E1 [Hs1 [Hm1 [_ Hi1]]]]]. rewrite E1. cbn [bind].
+      destruct (strings_ok p1 Hi1) as [l [pr [Er [Hmr [Hir [Hl [_ Hc]]]]]]]. exists l, pr. split; [exact Er|].
+      split; [congruence|]. split; [exact Hir|]. split; [exact Hl|]. right.
+      eapply steps_wsteps; [exact Hs1|]. eapply strings_wsteps. exact Hc.
+    - exists [], p. split; [reflexivity|]. split; [reflexivity|]. split; [exact Hi|]. split; [constructor|]. left. reflexivity.
+  Qed.
+
+  Lemma parse_name_specifier_ok mk code p : (forall n, P n -> spec_P (mk n)) -> pinv p ->
+    spec_post p (parse_name_specifier mk code p).
+  Proof.
+    intros Hmk Hi. unfold parse_name_specifier.
+    destruct (next_ok (set_mode MIdentifierSpecific p)) as [p1 [E1 [Hs1 [Hm1 [_ Hi1]]]]]; [apply pinv_set_mode; exact Hi|].
+    rewrite E1. cbn [bind]. cbn [set_mode p_lex] in Hs1.
+    assert (Hs2 : steps (p_lex p) (set_mode MNone p1)) by (apply steps_set_mode; exact Hs1).
+    assert (Hi2 : pinv (set_mode MNone p1)) by (apply pinv_set_mode; exact Hi1).
+    destruct (at_kind TkIdentifier (set_mode MNone p1)) eqn:K; cbn [negb].
+    2:{ eexists _, _. split; [reflexivity|]. split; [exact Hs2|]. split; [reflexivity|]. split; [exact Hi2|]. apply Hi1. }
+    destruct (next_ok _ Hi2) as [p3 [E3 [Hs3 [Hm3 [_ Hi3]]]]]. rewrite E3. cbn [bind].
+    assert (Hs03 : steps (p_lex p) p3) by (eapply steps_trans; eassumption).
+    destruct (at_kind TkNewline p3) eqn:K3.
+    - destruct (next_ok _ Hi3) as [p4 [E4 [Hs4 [Hm4 [_ Hi4]]]]]. rewrite E4. cbn [bind].
+      eexists _, p4. split; [reflexivity|]. split; [eapply steps_trans; eassumption|]. split; [rewrite Hm4, Hm3; reflexivity|].
+      split; [exact Hi4|]. apply Hmk. apply Hi1.
+    - eexists _, p3. split; [reflexivity|]. split; [exact Hs03|]. split; [rewrite Hm3; reflexivity|]. split; [exact Hi3|].
+      apply Hi3.
+  Qed.
+
+  Lemma parse_build_specifier_ok p : pinv p -> spec_post p (parse_build_specifier p).
+  Proof.
+    intros Hi. unfold parse_build_specifier.
+    destruct (next_ok (set_mode MPathString p)) as [p1 [E1 [Hs1 [Hm1 [_ Hi1]]]]]; [apply pinv_set_mode; exact Hi|].
+    rewrite E1. cbn [bind]. cbn [set_mode p_lex] in Hs1.
+    destruct (at_kind TkString p1) eqn:K1; cbn [negb].
+    2:{ eexists _, _. split; [reflexivity|]. split; [apply steps_set_mode; exact Hs1|]. split; [reflexivity|].
+        split; [apply pinv_set_mode; exact Hi1|]. apply Hi1. }
+    destruct (strings_ok p1 Hi1) as [outs [p2 [Eo [Hm2 [Hi2 [Hlo [_ Hco]]]]]]]. rewrite Eo. cbn [bind fst snd].
+    assert (Hs2 : steps (p_lex p) p2) by (eapply steps_wsteps; [exact Hs1|eapply strings_wsteps; exact Hco]).
+    destruct (at_kind TkColon p2) eqn:K2; cbn [negb].
+    2:{ eexists _, _. split; [reflexivity|]. split; [apply steps_set_mode; exact Hs2|]. split; [reflexivity|].
+        split; [apply pinv_set_mode; exact Hi2|]. apply Hi2. }
+    destruct (next_ok (set_mode MIdentifierSpecific p2)) as [p3 [E3 [Hs3 [Hm3 [_ Hi3]]]]]; [apply pinv_set_mode; exact Hi2|].
+    rewrite E3. cbn [bind]. cbn [set_mode p_lex] in Hs3.
+    assert (Hs03 : steps (p_lex p) p3) by (eapply steps_trans; eassumption).
+    assert (Hi4 : pinv (set_mode MPathString p3)) by (apply pinv_set_mode; exact Hi3).
+    destruct (at_kind TkIdentifier (set_mode MPathString p3)) eqn:K4; cbn [negb].
+    2:{ eexists _, _. split; [reflexivity|]. split; [apply steps_set_mode, steps_set_mode; exact Hs03|]. split; [reflexivity|].
+        split; [apply pinv_set_mode; exact Hi4|]. apply Hi3. }
+    destruct (next_ok _ Hi4) as [p5 [E5 [Hs5 [Hm5 [_ Hi5]]]]]. rewrite E5. cbn [bind]. cbn [set_mode p_lex] in Hs5.
+    assert (Hs05 : steps (p_lex p) p5) by (eapply steps_trans; eassumption).
+    destruct (strings_ok p5 Hi5) as [ex [p6 [Ee [Hm6 [Hi6 [Hle [_ Hce]]]]]]]. rewrite Ee. cbn [bind fst snd].
+    assert (Hs06 : steps (p_lex p) p6) by (eapply steps_wsteps; [exact Hs05|eapply strings_wsteps; exact Hce]).
+    destruct (opt_strings_ok TkPipe p6 Hi6) as [im [p7 [Ei [Hm7 [Hi7 [Hli Hw7]]]]]]. rewrite Ei. cbn [bind fst snd].
+    assert (Hs07 : steps (p_lex p) p7) by (eapply steps_wsteps; eassumption).
+    destruct (opt_strings_ok TkPipePipe p7 Hi7) as [oo [p8 [Eq [Hm8 [Hi8 [Hlq Hw8]]]]]]. rewrite Eq. cbn [bind fst snd].
+    assert (Hs08 : steps (p_lex p) (set_mode MNone p8)) by (apply steps_set_mode; eapply steps_wsteps; eassumption).
+    assert (Hi9 : pinv (set_mode MNone p8)) by (apply pinv_set_mode; exact Hi8).
+    destruct (at_kind TkNewline (set_mode MNone p8)) eqn:K9.
+    - destruct (next_ok _ Hi9) as [p10 [E10 [Hs10 [Hm10 [_ Hi10]]]]]. rewrite E10. cbn [bind].
+      eexists _, p10. split; [reflexivity|]. split; [eapply steps_trans; eassumption|]. split; [exact Hm10|].
+      split; [exact Hi10|]. cbn [spec_P]. split; [apply Hi3|]. auto.
+    - eexists _, _. split; [reflexivity|]. split; [exact Hs08|]. split; [reflexivity|]. split; [exact Hi9|]. apply Hi8.
+  Qed.
+
+  (* ---------------- blocks *)
+
+  Lemma fail_loop_ok fuel : forall p, (unread (p_lex p) < fuel)%nat -> pinv p ->
+    exists p', fail_loop fuel p = Ok p' /\ steps (p_lex p) p' /\ p_mode p' = p_mode p /\ pinv p' /\
+      cur_kind p' <> TkIndentation.
+  Proof.
+    induction fuel as [|f IH]; intros p Hf Hi; [lia|].
+    cbn [fail_loop]. destruct (skip_past_eol_ok p Hi) as [p1 [E1 [Hs1 [Hm1 [_ Hi1]]]]]. rewrite E1. cbn [bind].
+    destruct (at_kind TkIndentation p1) eqn:K.
+    - apply at_kind_true in K. assert (Hlt : (unread (p_lex p1) < unread (p_lex p))%nat) by (apply Hs1; rewrite K; discriminate).
+      destruct (IH p1) as [p' [E [Hs [Hm [Hi' Hk]]]]]; [lia|exact Hi1|].
+      exists p'. split; [exact E|]. split; [eapply steps_trans; eassumption|]. split; [congruence|]. auto.
+    - apply at_kind_false in K. exists p1. split; [reflexivity|]. auto.
+  Qed.
+
+  Lemma block_loop_ok fuel : forall p, (mu p < fuel)%nat -> pinv p -> p_mode p = MNone ->
+    exists l p', block_loop fuel p = Ok (l, p') /\ wsteps p p' /\ p_mode p' = MNone /\ pinv p' /\ Forall tbitem_P l /\
+      cur_kind p' <> TkIndentation.
+  Proof.
+    induction fuel as [|f IH]; intros p Hf Hi Hm; [lia|].
+    cbn [block_loop]. destruct (at_kind TkIndentation p) eqn:K.
+    2:{ apply at_kind_false in K. exists [], p. split; [reflexivity|]. split; [left; reflexivity|]. split; [exact Hm|].
+        split; [exact Hi|]. split; [constructor|exact K]. }
+    apply at_kind_true in K. assert (Kne : cur_kind p <> TkEndOfFile) by (rewrite K; discriminate).
+    destruct (next_ok (set_mode MIdentifierSpecific p)) as [p1 [E1 [Hs1 [Hm1 [_ Hi1]]]]]; [apply pinv_set_mode; exact Hi|].
+    rewrite E1. cbn [bind]. cbn [set_mode p_lex] in Hs1.
+    destruct (at_kind TkNewline p1) eqn:K1.
+    - destruct (next_ok (set_mode MNone p1)) as [p2 [E2 [Hs2 [Hm2 [_ Hi2]]]]]; [apply pinv_set_mode; exact Hi1|].
+      rewrite E2. cbn [bind]. cbn [set_mode p_lex] in Hs2.
+      assert (Hs02 : steps (p_lex p) p2) by (eapply steps_trans; eassumption).
+      pose proof (steps_mu p p2 Kne Hs02) as Hmu.
+      destruct (IH p2) as [l [p' [E [Hw [Hm' [Hi' [Hl Hk]]]]]]]; [lia|exact Hi2|exact Hm2|].
+      exists l, p'. split; [exact E|]. split; [right; eapply steps_wsteps; eassumption|]. auto.
+    - destruct (parse_binding_internal_ok p1 Hi1) as [r [p2 [E2 [Hs2 [Hm2 [Hi2 Hr]]]]]]. rewrite E2. cbn [bind fst snd].
+      assert (Hs02 : steps (p_lex p) p2) by (eapply steps_trans; eassumption).
+      pose proof (steps_mu p p2 Kne Hs02) as Hmu.
+      destruct (IH p2) as [l [p' [E [Hw [Hm' [Hi' [Hl Hk]]]]]]]; [lia|exact Hi2|exact Hm2|].
+      rewrite E. cbn [bind fst snd]. exists (tbitem_of_bres r :: l), p'. split; [reflexivity|].
+      split; [right; eapply steps_wsteps; eassumption|]. split; [exact Hm'|]. split; [exact Hi'|].
+      split; [constructor; [apply tbitem_of_bres_P; exact Hr|exact Hl]|exact Hk].
+  Qed.
+
+  Lemma block_fuel_ok p : (mu p < S (S (length (l_rest (p_lex p)))))%nat.
+  Proof. pose proof (mu_bound p). unfold unread in *. lia. Qed.
+
+  Lemma parse_block_decl_ok p : pinv p -> decl_post p (parse_block_decl p).
+  Proof.
+    intros Hi. unfold parse_block_decl.
+    assert (Hspec : spec_post p (if at_kind TkKWBuild p then parse_build_specifier p
+                                 else if at_kind TkKWPool p then parse_name_specifier SPool e_expected_pool_name p
+                                 else parse_name_specifier SRule e_expected_rule_name p)).
+    { destruct (at_kind TkKWBuild p); [apply parse_build_specifier_ok; exact Hi|].
+      destruct (at_kind TkKWPool p); apply parse_name_specifier_ok; try exact Hi; intros n Hn; exact Hn. }
+    destruct Hspec as [sr [p1 [E1 [Hs1 [Hm1 [Hi1 Hsr]]]]]]. rewrite E1. cbn [bind fst snd].
+    destruct sr as [rule outs ex im oo|n|n|c a].
+    - destruct (block_loop_ok _ p1 (block_fuel_ok p1) Hi1 Hm1) as [l [p' [E [Hw [Hm' [Hi' [Hl _]]]]]]].
+      rewrite E. cbn [bind fst snd]. eexists _, p'. split; [reflexivity|]. split; [eapply steps_wsteps; eassumption|].
+      split; [exact Hm'|]. split; [exact Hi'|]. cbn [spec_P] in Hsr. cbn [tdecl_P]. tauto.
+    - destruct (block_loop_ok _ p1 (block_fuel_ok p1) Hi1 Hm1) as [l [p' [E [Hw [Hm' [Hi' [Hl _]]]]]]].
+      rewrite E. cbn [bind fst snd]. eexists _, p'. split; [reflexivity|]. split; [eapply steps_wsteps; eassumption|].
+      split; [exact Hm'|]. split; [exact Hi'|]. split; [exact Hsr|exact Hl].
+    - destruct (block_loop_ok _ p1 (block_fuel_ok p1) Hi1 Hm1) as [l [p' [E [Hw [Hm' [Hi' [Hl _]]]]]]].
+      rewrite E. cbn [bind fst snd]. eexists _, p'. split; [reflexivity|]. split; [eapply steps_wsteps; eassumption|].
+      split; [exact Hm'|]. split; [exact Hi'|]. split; [exact Hsr|exact Hl].
+    - destruct (fail_loop_ok (S (S (length (l_rest (p_lex p1))))) p1) as [p' [E [Hs [Hm' [Hi' _]]]]];
+        [unfold unread; lia|exact Hi1|].
+      rewrite E. cbn [bind]. eexists _, p'. split; [reflexivity|]. split; [eapply steps_trans; eassumption|].
+      split; [congruence|]. split; [exact Hi'|exact Hsr].
+  Qed.
+
+  (* ---------------- parseDecl *)
+
+  Lemma wrap_post p r : decl_post p r ->
+    exists ds p', (do x <- r; Ok ([fst x], snd x)) = Ok (ds, p') /\ steps (p_lex p) p' /\ p_mode p' = MNone /\ pinv p' /\
+      Forall tdecl_P ds /\ ds <> [].
+  Proof.
+    intros [d [p' [-> [Hs [Hm [Hi Hd]]]]]]. cbn [bind fst snd]. exists [d], p'. split; [reflexivity|].
+    split; [exact Hs|]. split; [exact Hm|]. split; [exact Hi|]. split; [constructor; [exact Hd|constructor]|discriminate].
+  Qed.
+
+  Lemma parse_decl_ok p : pinv p -> p_mode p = MNone ->
+    exists ds p', parse_decl p = Ok (ds, p') /\ steps (p_lex p) p' /\ p_mode p' = MNone /\ pinv p' /\ Forall tdecl_P ds /\
+      (cur_kind p <> TkNewline -> ds <> []).
+  Proof.
+    intros Hi Hm. unfold parse_decl.
+    assert (Hfs : decl_post p (fail_skip TDPErr e_unexpected_token p)).
+    { destruct (fail_skip_ok TDPErr e_unexpected_token p Hi) as [p' [E [Hs [Hm' [_ Hi']]]]]. rewrite E.
+      eexists _, p'. split; [reflexivity|]. split; [exact Hs|]. split; [congruence|]. split; [exact Hi'|]. apply Hi. }
+    assert (Hw : forall r, decl_post p r ->
+      exists ds p', (do x <- r; Ok ([fst x], snd x)) = Ok (ds, p') /\ steps (p_lex p) p' /\ p_mode p' = MNone /\ pinv p' /\
+        Forall tdecl_P ds /\ (cur_kind p <> TkNewline -> ds <> [])).
+    { intros r Hr. destruct (wrap_post p r Hr) as [ds [p' [E [Hs [Hm' [Hi' [Hd Hne]]]]]]]. exists ds, p'. auto 10. }
+    destruct (cur_kind p) eqn:K;
+      try (apply Hw; exact Hfs);
+      try (apply Hw; apply parse_block_decl_ok; exact Hi).
+    - apply Hw. apply parse_binding_decl_ok. exact Hi.
+    - apply Hw. apply parse_default_decl_ok. exact Hi.
+    - apply Hw. apply parse_include_decl_ok. exact Hi.
+    - apply Hw. apply parse_include_decl_ok. exact Hi.
+    - destruct (next_ok p Hi) as [p1 [E1 [Hs1 [Hm1 [_ Hi1]]]]]. rewrite E1. cbn [bind].
+      exists [], p1. split; [reflexivity|]. split; [exact Hs1|]. split; [congruence|]. split; [exact Hi1|].
+      split; [constructor|]. intros H. contradiction.
+  Qed.
+
+  (* ---------------- the loop of Parser::parse *)
+
+  Lemma decls_loop_ok fuel : forall p, (mu p < fuel)%nat -> pinv p -> p_mode p = MNone ->
+    exists ds, decls_loop fuel p = Ok ds /\ Forall tdecl_P ds.
+  Proof.
+    induction fuel as [|f IH]; intros p Hf Hi Hm; [lia|].
+    cbn [decls_loop]. destruct (at_kind TkEndOfFile p) eqn:K.
+    - exists []. split; [reflexivity|constructor].
+    - apply at_kind_false in K.
+      destruct (parse_decl_ok p Hi Hm) as [ds [p' [E [Hs [Hm' [Hi' [Hd _]]]]]]]. rewrite E. cbn [bind fst snd].
+      pose proof (steps_mu p p' K Hs) as Hmu.
+      destruct (IH p') as [ds' [E' Hd']]; [lia|exact Hi'|exact Hm'|].
+      rewrite E'. cbn [bind]. exists (ds ++ ds'). split; [reflexivity|]. apply Forall_app. split; assumption.
+  Qed.
+
+  Lemma parse_tokens_ok data : A (init data) -> exists ds, parse_tokens data = Ok ds /\ Forall tdecl_P ds.
+  Proof.
+    intros Ha. unfold parse_tokens.
+    destruct (get_next_ok MNone (init data) Ha) as [p [E [Hs [Hm [_ Hi]]]]]. rewrite E. cbn [bind].
+    apply decls_loop_ok; [|exact Hi|exact Hm].
+    pose proof (mu_bound p) as Hb. destruct Hs as [Hle _]. unfold unread, init in Hle. cbn [l_rest] in Hle.
+    unfold parse_fuel. unfold unread in Hb. lia.
+  Qed.
+
+End Inv.
+
+(* ================================================================ parse_total *)
+
+Definition any_state (s : lstate) : Prop := True.
+Definition any_token (t : token) : Prop := True.
+
+Lemma any_lex : forall m s t s', any_state s -> lex m s = Ok (t, s') -> any_state s' /\ any_token t.
+Proof. intros. split; exact I. Qed.
+Lemma any_empty : forall t, any_token t -> any_token (empty_string_of t).
+Proof. intros. exact I. Qed.
+
+(* for EVERY byte string the parser model terminates within its fuel: S (S (length data)) rounds of the loop of
+   Parser::parse (every round consumes at least one token, every token but EndOfFile at least one byte), and
+   S (S (number of unread bytes)) rounds of each inner loop *)
+Theorem parse_tokens_total data : exists ds, parse_tokens data = Ok ds.
 Proof.
-  unfold get_next. destruct (next_loop_ok (S (length (l_rest s))) m s) as [t [s' [E [Hle [Hlt Hc]]]]]; [unfold unread; lia|].
-  rewrite E. cbn [bind fst snd]. eexists. split; [reflexivity|]. unfold steps, cur_kind. cbn [p_lex p_tok p_mode].
-  repeat split; assumption.
+  destruct (parse_tokens_ok any_state any_token any_lex any_empty data I) as [ds [E _]]. exists ds. exact E.
 Qed.
 
-Lemma next_ok p : exists p', next p = Ok p' /\ steps (p_lex p) p' /\ p_mode p' = p_mode p /\ cur_kind p' <> TkComment.
-Proof. apply get_next_ok. Qed.
+Theorem parse_total data : exists ds, parse data = Ok ds.
+Proof.
+  unfold parse. destruct (parse_tokens_total data) as [ds E]. rewrite E. cbn [bind]. eexists. reflexivity.
+Qed.
 
+(* getNextNonCommentToken and skipPastEOL never run out of fuel, from any parser state *)
 Theorem next_total p : exists p', next p = Ok p'.
-Proof. destruct (next_ok p) as [p' [E _]]. exists p'. exact E. Qed.
+Proof.
+  destruct (next_ok any_state any_token any_lex p) as [p' [E _]]; [split; exact I|]. exists p'. exact E.
+Qed.
+
+Theorem skip_past_eol_total p : exists p', skip_past_eol p = Ok p'.
+Proof.
+  destruct (skip_past_eol_ok any_state any_token any_lex p) as [p' [E _]]; [split; exact I|]. exists p'. exact E.
+Qed.
+
+(* one declaration: never out of fuel; consumes input (strictly, unless it ends at EndOfFile); and leaves the lexer
+   in mode None - the `assert(lexer.getMode() == Lexer::LexingMode::None)` at the head of the loop of parse() holds *)
+Theorem parse_decl_total p : p_mode p = MNone ->
+  exists ds p', parse_decl p = Ok (ds, p') /\ p_mode p' = MNone /\
+    (unread (p_lex p') <= unread (p_lex p))%nat /\
+    (cur_kind p' <> TkEndOfFile -> (unread (p_lex p') < unread (p_lex p))%nat).
+Proof.
+  intros Hm. destruct (parse_decl_ok any_state any_token any_lex any_empty p) as [ds [p' [E [[H1 H2] [Hm' _]]]]];
+    [split; exact I|exact Hm|].
+  exists ds, p'. auto.
+Qed.
